@@ -25,9 +25,29 @@ def parseFlow (s : String) : Option FlowRule := match nums s with
     some { id, res, tcs, cb, thr, rel, ref, maxQ, period, cf, statIv, lowMem, highMem, memLow, memHigh }
   | _ => none
 
+/-- a `ParamIndex` travels as a natural: `1000 + k` stands for `−k` -/
+def decIdx (v : Nat) : Int := if v ≥ 1000 then -((v - 1000 : Nat) : Int) else v
+
+/-- the request token `a.b.c@k=v@k=v` (`0` = no arguments) -/
+def parseReq (s : String) : Option Req :=
+  match s.splitOn "@" with
+  | [] => none
+  | a :: atts =>
+    let args := if a == "0" || a == "" then some [] else (a.splitOn ".").mapM (·.toNat?)
+    let att := atts.mapM fun kv => match kv.splitOn "=" with
+      | [k, v] => match k.toNat?, v.toNat? with
+        | some k, some v => some (k, v)
+        | _, _ => none
+      | _ => none
+    match args, att with
+    | some args, some att => some { args, att }
+    | _, _ => none
+
 def parseHot (s : String) : Option HotRule := match nums s with
   | some [id, res, mtype, cb, pidx, thr, maxQ, burst, dur, cap, items, sval, sthr] =>
-    some { id, res, mtype, cb, pidx, thr, maxQ, burst, dur, cap, items, sval, sthr }
+    some { id, res, mtype, cb, pidx := decIdx pidx, pkey := 0, thr, maxQ, burst, dur, cap, items, sval, sthr }
+  | some [id, res, mtype, cb, pidx, thr, maxQ, burst, dur, cap, items, sval, sthr, pkey] =>
+    some { id, res, mtype, cb, pidx := decIdx pidx, pkey, thr, maxQ, burst, dur, cap, items, sval, sthr }
   | _ => none
 
 def parseList {α} (p : String → Option α) (s : String) : Option (List α) :=
@@ -36,9 +56,9 @@ def parseList {α} (p : String → Option α) (s : String) : Option (List α) :=
 /-- what the model can execute (anything else is `bad-op`) -/
 def cbSupported (r : CbRule) : Bool := r.strat ≤ 2
 def flowSupported (r : FlowRule) : Bool :=
-  r.rel == 0 && r.ref == 0 && (r.tcs == 0 || (r.tcs == 1 && r.cb == 0 && r.thr > 0) || r.tcs == 2) && r.cb ≤ 1
+  r.rel ≤ 1 && (r.tcs == 0 || (r.tcs == 1 && r.thr > 0) || r.tcs == 2) && r.cb ≤ 1
 
-def hotSupported (r : HotRule) : Bool := r.mtype ≤ 1 && r.cb ≤ 1 && r.pidx == 0 && r.items != 1
+def hotSupported (r : HotRule) : Bool := r.mtype ≤ 1 && r.cb ≤ 1 && r.items != 1
 def hotInert (r : HotRule) : Bool := r.cb ≤ 1 && r.thr ≥ bigThr && (r.items != 2 || r.sthr ≥ bigThr)
 def cbInert (r : CbRule) : Bool := r.strat == 2 && r.thr ≥ bigThr
 def flowInert (r : FlowRule) : Bool := r.tcs == 0 && r.cb == 0 && r.thr ≥ bigThr
@@ -57,7 +77,7 @@ structure St where
   now : Nat := 1900000000000     -- every phase starts at the same virtual time
   nodes : List (Nat × Sentinel.LA.Arr Nat) := []     -- resource nodes: pass counts (20 × 500 ms)
   mem : Int := -1                                  -- system_metric.CurrentMemoryUsage (−1 = not retrieved)
-  live : List (Nat × Nat × Nat × Nat) := []        -- entries in flight: handle ↦ (resource, argument, start time)
+  live : List (Nat × Nat × Req × Nat) := []        -- entries in flight: handle ↦ (resource, request, start time)
   -- oracle side
   phaseB : Bool := false
   cbRaw : List (Nat × List CbRule) := []       -- what the caller passed last for each resource (valid rules)
@@ -76,15 +96,15 @@ def nodeOf (s : St) (x : Nat) : Sentinel.LA.Arr Nat := lookup (Sentinel.LA.mk 20
 
 /-- `api.Entry` on resource `x`: the rule checks in slot order and, if all pass, the stat slots' `OnEntryPassed`.
     `none` = admitted (with the total wait), `some text` = refused. -/
-def enterChecks (s : St) (x : Nat) (arg : Nat) : St × Option String × Nat :=
+def enterChecks (s : St) (x : Nat) (q : Req) : St × Option String × Nat :=
   let node := nodeOf s x
   let s := { s with nodes := assoc s.nodes x node }
-  let (fb, w, fcs) := flowScan s.now s.mem (flowRead node s.now) (s.flow.ctls x)
+  let (fb, w, fcs) := flowScan s.now s.mem (flowRead (nodeOf s) s.now) (s.flow.ctls x)
   let s := { s with flow := s.flow.set x fcs }
   match fb with
   | some id => (s, some s!"block flow {id}", 0)
   | none =>
-    let (hb, hw, hcs) := if arg = 0 then (none, 0, s.hot.ctls x) else hotScan s.now arg (s.hot.ctls x)
+    let (hb, hw, hcs) := hotScan s.now q (s.hot.ctls x)
     let w := w + hw
     let s := { s with hot := s.hot.set x hcs }
     match hb with
@@ -98,39 +118,39 @@ def enterChecks (s : St) (x : Nat) (arg : Nat) : St × Option String × Nat :=
       -- passed every check: the stat slots count the pass and the call in flight
       let node := (Sentinel.LA.addAt node s.now 1).1
       let fcs := fcs.map (flowRecordPass s.now)
-      let hcs := hcs.map (hotConcAdd 1 arg)
+      let hcs := hcs.map fun c => hotConcAdd 1 (hotExtract c.rule q) c
       ({ s with flow := s.flow.set x fcs, hot := s.hot.set x hcs, nodes := assoc s.nodes x node }, none, w)
 
 /-- `Exit` of an admitted entry: `OnCompleted` of the stat slots, on the controllers the resource has *now* -/
-def complete (s : St) (x : Nat) (arg : Nat) (start : Nat) (err : Bool) : St :=
+def complete (s : St) (x : Nat) (q : Req) (start : Nat) (err : Bool) : St :=
   let ccs := (s.cb.ctls x).map (cbComplete s.now (s.now - start) err)
-  let hcs := (s.hot.ctls x).map (hotConcAdd (-1) arg)
+  let hcs := (s.hot.ctls x).map fun c => hotConcAdd (-1) (hotExtract c.rule q) c
   { s with cb := s.cb.set x ccs, hot := s.hot.set x hcs }
 
 def passText (w : Nat) : String := if w = 0 then "pass" else s!"pass wait {w}"
 
 /-- `e`: entry and exit in one op; the request takes `rt` ms.  The clock ends at entry time + `rt` whether the request
     was refused or not (both phases keep the same clock). -/
-def entry (s : St) (x : Nat) (err : Bool) (arg : Nat) (rt : Nat) : St × String :=
+def entry (s : St) (x : Nat) (err : Bool) (q : Req) (rt : Nat) : St × String :=
   let t0 := s.now
-  let (s, b, w) := enterChecks s x arg
+  let (s, b, w) := enterChecks s x q
   let s := { s with now := t0 + rt }
   match b with
   | some r => (s, r)
-  | none => (complete s x arg t0 err, passText w)
+  | none => (complete s x q t0 err, passText w)
 
 /-- `in h x arg`: an entry that stays in flight under the handle `h` (if admitted) -/
-def enterLive (s : St) (h x arg : Nat) : St × String :=
-  let (s', b, w) := enterChecks s x arg
+def enterLive (s : St) (h x : Nat) (q : Req) : St × String :=
+  let (s', b, w) := enterChecks s x q
   match b with
   | some r => (s', r)
-  | none => ({ s' with live := (h, x, arg, s.now) :: s'.live.filter (·.1 != h) }, passText w)
+  | none => ({ s' with live := (h, x, q, s.now) :: s'.live.filter (·.1 != h) }, passText w)
 
 /-- `out h err`: exit of the entry in flight under `h` (`none` if there is none) -/
 def exitLive (s : St) (h : Nat) (err : Bool) : St × String :=
   match s.live.find? (·.1 == h) with
   | none => (s, "none")
-  | some (_, x, arg, start) => (complete { s with live := s.live.filter (·.1 != h) } x arg start err, "done")
+  | some (_, x, q, start) => (complete { s with live := s.live.filter (·.1 != h) } x q start err, "done")
 
 /-- oracle bookkeeping for one reload of a module: per resource, was the list left unchanged (never-refusing rules and
     decision-neutral fields aside), and is a controller stolen -/
@@ -180,7 +200,12 @@ def doLoad (oracle : Bool) (s : St) (modl : String) (re : Bool) (only : Option N
       let m := match only with
         | none => s.flow.loadRules flowCalc FlowRule.valid (·.res) s.now rules
         | some x => s.flow.loadRulesOfResource flowCalc FlowRule.valid (·.res) s.now x rules
-      ({ s with flow := m, flags := fl, flowRaw := raw }, none)
+      -- `generateStatFor`: a rule that needs a statistic makes sure the node it reads exists (its own resource's, or the
+      -- referenced one's for an associated rule)
+      let targets := (rules.filter fun r => FlowRule.valid r && r.needStat && (only.isNone || only == some r.res)).map
+        fun r => if r.rel = 1 then r.ref else r.res
+      let nodes := targets.foldl (fun ns y => if ns.any (·.1 == y) then ns else (y, Sentinel.LA.mk 20 500 s.now) :: ns) s.nodes
+      ({ s with flow := m, flags := fl, flowRaw := raw, nodes := nodes }, none)
   else if modl == "hot" then
     match parseList parseHot arg with
     | none => (s, some "bad-op")
@@ -203,18 +228,31 @@ def stepCore (s : St) (ts : List String) : St × Option String :=
     | some t => ({ s with now := t }, none)
     | none => (s, some "bad-op")
   | ["e", x, err] => match x.toNat?, err.toNat? with
-    | some x, some err => let (s, r) := entry s x (err != 0) 0 0; (s, some r)
+    | some x, some err => let (s, r) := entry s x (err != 0) {} 0; (s, some r)
     | _, _ => (s, some "bad-op")
-  | ["e", x, err, a] => match x.toNat?, err.toNat?, a.toNat? with
+  | ["e", x, err, a] => match x.toNat?, err.toNat?, parseReq a with
     | some x, some err, some a => let (s, r) := entry s x (err != 0) a 0; (s, some r)
     | _, _, _ => (s, some "bad-op")
-  | ["e", x, err, a, rt] => match x.toNat?, err.toNat?, a.toNat?, rt.toNat? with
+  | ["e", x, err, a, rt] => match x.toNat?, err.toNat?, parseReq a, rt.toNat? with
     | some x, some err, some a, some rt => let (s, r) := entry s x (err != 0) a rt; (s, some r)
     | _, _, _, _ => (s, some "bad-op")
+  | ["fields", m] =>
+    -- the fields of the rule struct the op language (and the model's equality / stat-reuse lists) know about: a field
+    -- added to the Go struct shows up here as a difference
+    if m == "cb" then (s, some "Id,Resource,Strategy,RetryTimeoutMs,MinRequestAmount,StatIntervalMs,StatSlidingWindowBucketCount,MaxAllowedRtMs,Threshold,ProbeNum")
+    else if m == "flow" then (s, some "ID,Resource,TokenCalculateStrategy,ControlBehavior,Threshold,RelationStrategy,RefResource,MaxQueueingTimeMs,WarmUpPeriodSec,WarmUpColdFactor,StatIntervalInMs,LowMemUsageThreshold,HighMemUsageThreshold,MemLowWaterMarkBytes,MemHighWaterMarkBytes")
+    else if m == "hot" then (s, some "ID,Resource,MetricType,ControlBehavior,ParamIndex,ParamKey,Threshold,MaxQueueingTimeMs,BurstCount,DurationInSec,ParamsMaxCapacity,SpecificItems")
+    else (s, some "bad-op")
+  | ["flow.rules", x] => match x.toNat? with
+    | some x => (s, some (showList ((s.flow.ctls x).map fun c => toString c.rule.id)))
+    | none => (s, some "bad-op")
+  | ["hot.rules", x] => match x.toNat? with
+    | some x => (s, some (showList ((s.hot.ctls x).map fun c => toString c.rule.id)))
+    | none => (s, some "bad-op")
   | ["mem", m] => match m.toNat? with
     | some m => ({ s with mem := m }, none)
     | none => (s, some "bad-op")
-  | ["in", h, x, a] => match h.toNat?, x.toNat?, a.toNat? with
+  | ["in", h, x, a] => match h.toNat?, x.toNat?, parseReq a with
     | some h, some x, some a => let (s, r) := enterLive s h x a; (s, some r)
     | _, _, _ => (s, some "bad-op")
   | ["out", h, err] => match h.toNat?, err.toNat? with
@@ -249,6 +287,18 @@ def stepModel (s : St) (ts : List String) (_ : String) : St × Option String :=
     let (s', r) := stepCore s ts
     (if isReload ts || r == some "bad-op" then s' else { s' with recOps := s.recOps.push ts }, r)
 
+/-- the resources whose traffic the decisions on `x` depend on: `x` and, transitively, every resource an associated flow
+    rule on them reads the statistic of -/
+def dependsOn (s : St) (x : Nat) : List Nat :=
+  let step (xs : List Nat) : List Nat :=
+    (xs ++ xs.flatMap fun y => ((s.flow.ctls y).filter fun c => c.rule.rel == 1).map (·.rule.ref)).eraseDups
+  step (step (step (step [x])))
+
+/-- the claim flags of a decision on `x`: those of every resource it depends on, combined -/
+def flagsFor (s : St) (x : Nat) : Flags :=
+  let fs := (dependsOn s x).map fun y => lookup ({} : Flags) s.flags y
+  { unclaimed := s.allUnclaimed || fs.any (·.unclaimed), steal := fs.any (·.steal), warm := fs.any (·.warm), after := s.reloaded }
+
 /-- `oracle` step: reads the implementation's trace.  Phase A: follow the rule lists (through the model's managers) and
     remember every decision with the claim flags of its resource; the `phase B` line carries the decisions of the run
     without reloads, which are compared one by one. -/
@@ -271,20 +321,17 @@ def stepOracle0 (s : St) (ts : List String) (line : String) : St × Option Strin
       else if verdicts.contains 2 then (s, some "known:warmup-reload-resets")
       else (s, some "ok")
   | "e" :: x :: _ =>
-    let x := x.toNat?.getD 0
-    let f : Flags := lookup ({} : Flags) s.flags x
-    let f := if s.allUnclaimed then { f with unclaimed := true } else f
-    let f := { f with after := s.reloaded }
+    let f := flagsFor s (x.toNat?.getD 0)
     ({ s with recA := s.recA.push (res, f) }, some "?")
   | "in" :: _ :: x :: _ =>
-    let x := x.toNat?.getD 0
-    let f : Flags := lookup ({} : Flags) s.flags x
-    let f := if s.allUnclaimed then { f with unclaimed := true } else f
-    let f := { f with after := s.reloaded }
+    let f := flagsFor s (x.toNat?.getD 0)
     ({ s with recA := s.recA.push (res, f) }, some "?")
   | ["out", _, _] => (s, none)
   | ["t", _] => (s, none)
   | ["mem", _] => (s, none)
+  | ["fields", _] => (s, none)
+  | ["flow.rules", _] => (s, none)
+  | ["hot.rules", _] => (s, none)
   | _ =>
     let re := isReload ts
     match ts with
